@@ -257,4 +257,343 @@ Section Heap.
       + eapply Ev_ext; [|exact (Ev_bind _ (fun g h1 => dheap_next_matching C (cnext g) m h1) _ _ Hev1 Hev')].
         intro g. cbn. destruct (cnext g k) as [[r k']|]; reflexivity.
   Qed.
+
+  Lemma dheap_loop_S cn f min h m :
+    dheap_loop C cn (S f) min h m =
+    match m with
+    | [] => Some (None, h, [])
+    | (_, m0) :: _ =>
+        match dheap_next_matching C cn m h with
+        | None => None
+        | Some h1 =>
+            if min <=? Z.of_nat (length m)
+            then Some (Some m0, fst (heap_update_matches C h1), snd (heap_update_matches C h1))
+            else dheap_loop C cn f min (fst (heap_update_matches C h1)) (snd (heap_update_matches C h1))
+        end
+    end.
+  Proof.
+    destruct m as [|[k0 m0] mr]; [reflexivity|].
+    change (dheap_loop C cn (S f) min h ((k0, m0) :: mr)) with
+      (match dheap_next_matching C cn (@cons hentry (k0, m0) mr) h with
+       | None => None
+       | Some h1 => let '(h2, m') := heap_update_matches C h1 in
+                    if min <=? Z.of_nat (length (@cons hentry (k0, m0) mr)) then Some (Some m0, h2, m')
+                    else dheap_loop C cn f min h2 m'
+       end).
+    destruct (dheap_next_matching C cn (@cons hentry (k0, m0) mr) h) as [h1|]; [|reflexivity].
+    destruct (heap_update_matches C h1) as [h2 m']. reflexivity.
+  Qed.
+
+  Lemma dheap_loop_found cn f min h (m : list hentry) k0 m0 mr :
+    m = (k0, m0) :: mr -> (min <=? Z.of_nat (length m)) = true ->
+    dheap_loop C cn (S f) min h m =
+    match dheap_next_matching C cn m h with
+    | None => None
+    | Some h1 => Some (Some m0, fst (heap_update_matches C h1), snd (heap_update_matches C h1))
+    end.
+  Proof. intros E H. rewrite dheap_loop_S. rewrite H. subst m. reflexivity. Qed.
+
+  Lemma dheap_loop_skip cn f min h (m : list hentry) k0 m0 mr :
+    m = (k0, m0) :: mr -> (min <=? Z.of_nat (length m)) = false ->
+    dheap_loop C cn (S f) min h m =
+    match dheap_next_matching C cn m h with
+    | None => None
+    | Some h1 => dheap_loop C cn f min (fst (heap_update_matches C h1)) (snd (heap_update_matches C h1))
+    end.
+  Proof. intros E H. rewrite dheap_loop_S. rewrite H. subst m. reflexivity. Qed.
+
+  Lemma ceq_map_dw t a b : Forall ascending a -> Forall ascending b -> ceq a b ->
+    ceq (map (dropwhile_lt t) a) (map (dropwhile_lt t) b).
+  Proof. intros A B H x. rewrite !count_in_map_dw by assumption. rewrite (H x). reflexivity. Qed.
+
+  Lemma map_dw_noop t (h : list hentry) es :
+    Forall2 EntOk h es -> Forall (fun e => t <= snd e) h -> map (dropwhile_lt t) es = es.
+  Proof.
+    induction 1 as [|x e h es Hx F IH]; intro Hle; cbn; [reflexivity|]. inversion Hle; subst.
+    destruct Hx as [pk [_ [A ->]]]. rewrite dropwhile_lt_head_ge by assumption. f_equal. auto.
+  Qed.
+
+  Lemma map_dw_succ m0 (m : list hentry) es :
+    Forall2 EntOk m es -> Forall (fun e => snd e = m0) m -> map (dropwhile_lt (m0 + 1)) es = map (@tl Z) es.
+  Proof.
+    induction 1 as [|x e h es Hx F IH]; intro Hall; cbn; [reflexivity|]. inversion Hall; subst.
+    destruct Hx as [pk [_ [A ->]]]. rewrite dropwhile_succ_head by exact A. cbn. f_equal. auto.
+  Qed.
+
+  Lemma count_zero_above m0 (h : list hentry) es :
+    Forall2 EntOk h es -> Forall (fun e => m0 < snd e) h -> count_in m0 es = 0.
+  Proof.
+    unfold count_in. induction 1 as [|x e h es Hx F IH]; intro Hlt; cbn; [reflexivity|]. inversion Hlt; subst.
+    destruct Hx as [pk [_ [A ->]]].
+    rewrite (memb_head_ge_sym m0 (snd x) pk A ltac:(lia)). rewrite (proj2 (Z.eqb_neq (snd x) m0)) by lia. auto.
+  Qed.
+
+  Lemma count_all_eq m0 (m : list hentry) es :
+    Forall2 EntOk m es -> Forall (fun e => snd e = m0) m -> count_in m0 es = Z.of_nat (length m).
+  Proof.
+    unfold count_in. induction 1 as [|x e h es Hx F IH]; intro Hall; cbn [filter length]; [reflexivity|]. inversion Hall; subst.
+    destruct Hx as [pk [_ [A ->]]].
+    rewrite (memb_head_ge_sym (snd x) (snd x) pk A ltac:(lia)). rewrite Z.eqb_refl. cbn [length]. rewrite !Nat2Z.inj_succ. rewrite IH by assumption. reflexivity.
+  Qed.
+
+  Lemma ents_lower m0 (h : list hentry) es :
+    Forall2 EntOk h es -> Forall (fun e => m0 <= snd e) h -> Forall (fun e => forall x, In x e -> m0 <= x) es.
+  Proof.
+    induction 1 as [|x e h es Hx F IH]; intro Hle; constructor; inversion Hle; subst; auto.
+    destruct Hx as [pk [_ [A ->]]]. intros y [<-|Hy]; [assumption|]. pose proof (asc_from_In _ _ _ A Hy). lia.
+  Qed.
+
+  Lemma dheap_loop_ok min : forall n h m es_h es_m,
+    (length (at_least 0 (es_h ++ es_m)) <= n)%nat ->
+    Forall2 EntOk h es_h -> Forall2 EntOk m es_m -> UM h m ->
+    exists h' m' es_h' es_m',
+      Forall2 EntOk h' es_h' /\ Forall2 EntOk m' es_m' /\ UM h' m' /\
+      at_least min (es_h' ++ es_m') = tl (at_least min (es_h ++ es_m)) /\
+      Ev2 (fun g f => dheap_loop C (cnext g) f min h m) (hd_res (at_least min (es_h ++ es_m)), h', m').
+  Proof.
+    induction n as [|n IH]; intros h m es_h es_m Hn Fh Fm Hum;
+      (destruct m as [|[k0 m0] mr];
+       [ cbn in Hum; subst h; inversion Fh; subst; inversion Fm; subst;
+         exists [], [], [], []; cbn [app]; split; [constructor|]; split; [constructor|]; split; [reflexivity|]; split; [reflexivity|];
+         eapply Ev2_step0; [|apply Ev2_const]; intros g f; reflexivity | ]).
+    all: destruct Hum as [Hall Hgt];
+      set (m := (k0, m0) :: mr) in *; set (es := es_h ++ es_m) in *;
+      pose proof (Forall2_EntOk_asc _ _ Fh) as Ah; pose proof (Forall2_EntOk_asc _ _ Fm) as Am;
+      (assert (Forall ascending es) as Aes by (apply Forall_app; split; assumption));
+      (assert (Forall (fun e => forall x, In x e -> m0 <= x) es) as Hlow
+         by (apply Forall_app; split;
+             [apply (ents_lower m0 h es_h Fh); eapply Forall_impl; [|exact Hgt]; cbn; intros; lia
+             |apply (ents_lower m0 m es_m Fm); eapply Forall_impl; [|exact Hall]; cbn; intros; lia]));
+      (assert (count_in m0 es = Z.of_nat (length m)) as Hcnt
+         by (unfold es; rewrite count_in_app, (count_zero_above m0 h es_h Fh Hgt), (count_all_eq m0 m es_m Fm Hall); reflexivity));
+      (assert (1 <= count_in m0 es) as Hc1 by (rewrite Hcnt; unfold m; cbn [length]; lia));
+      (assert (forall mn x, In x (at_least mn es) -> m0 <= x) as Hmin
+         by (intros mn x Hx; apply at_least_In in Hx as [Hx _]; apply Exists_exists in Hx as [e [He Hin]];
+             rewrite Forall_forall in Hlow; exact (Hlow e He x Hin)));
+      (assert (In m0 (at_least 0 es)) as Hin0
+         by (apply at_least_In; split; [apply count_in_pos; exact Hc1|lia]));
+      destruct (ascending_hd_char _ m0 (at_least_ascending 0 es) Hin0 (Hmin 0)) as [u' Hu].
+    - rewrite Hu in Hn. cbn in Hn. lia.
+    - destruct (next_matching_ok m es_m h es_h Fm Fh) as [h1 [es1 [F1 [Hc1' Hev1]]]].
+      destruct (hum_ok h1 es1 F1) as [es_h2 [es_m2 [Fh2 [Fm2 [Hum2 Hc2]]]]].
+      set (h2 := fst (heap_update_matches C h1)) in *. set (m2 := snd (heap_update_matches C h1)) in *.
+      assert (ceq (es_h2 ++ es_m2) (map (dropwhile_lt (m0 + 1)) es)) as Hceq.
+      { eapply ceq_trans; [exact Hc2|]. eapply ceq_trans; [exact Hc1'|].
+        unfold es. rewrite map_app.
+        rewrite (map_dw_noop (m0 + 1) h es_h Fh) by (eapply Forall_impl; [|exact Hgt]; cbn; intros; lia).
+        rewrite (map_dw_succ m0 m es_m Fm Hall). apply ceq_app_comm. }
+      assert (forall mn, at_least mn (es_h2 ++ es_m2) = dropwhile_lt (m0 + 1) (at_least mn es)) as Hdw.
+      { intro mn. rewrite (at_least_ceq mn _ _ Hceq). apply at_least_map_dw. exact Aes. }
+      assert (length (at_least 0 (es_h2 ++ es_m2)) <= n)%nat as Hn2.
+      { rewrite Hdw, Hu. rewrite dropwhile_succ_head.
+        - rewrite Hu in Hn. cbn in Hn. lia.
+        - pose proof (at_least_ascending 0 es) as A. rewrite Hu in A. exact A. }
+      destruct (min <=? Z.of_nat (length m)) eqn:Efound.
+      + (* found *)
+        pose proof Efound as Eb. apply Z.leb_le in Efound. rewrite <- Hcnt in Efound.
+        assert (In m0 (at_least min es)) as Hin by (apply at_least_In; split; [apply count_in_pos; exact Hc1|lia]).
+        destruct (ascending_hd_char _ m0 (at_least_ascending min es) Hin (Hmin min)) as [p' Hp].
+        exists h2, m2, es_h2, es_m2. split; [exact Fh2|]. split; [exact Fm2|]. split; [exact Hum2|].
+        rewrite Hp. cbn [hd_res tl]. split.
+        * rewrite Hdw, Hp. apply dropwhile_succ_head. pose proof (at_least_ascending min es) as A. rewrite Hp in A. exact A.
+        * eapply Ev2_step with (Ch := fun g => dheap_next_matching C (cnext g) m h)
+            (G := fun g f h1 => Some (Some m0, fst (heap_update_matches C h1), snd (heap_update_matches C h1)));
+            [|exact Hev1|apply Ev2_const].
+          intros g f. exact (dheap_loop_found (cnext g) f min h m k0 m0 mr eq_refl Eb).
+      + (* skipped *)
+        pose proof Efound as Eb. apply Z.leb_gt in Efound. rewrite <- Hcnt in Efound.
+        assert (~ In m0 (at_least min es)) as Hnin by (intro Hin; apply at_least_In in Hin; lia).
+        assert (at_least min (es_h2 ++ es_m2) = at_least min es) as Hsame.
+        { rewrite Hdw. apply dropwhile_lt_noop. apply Forall_forall. intros x Hx.
+          pose proof (Hmin min x Hx). assert (x <> m0) by (intro; subst; tauto). lia. }
+        destruct (IH h2 m2 es_h2 es_m2 Hn2 Fh2 Fm2 Hum2) as [h' [m' [es_h' [es_m' [Fh' [Fm' [Hum' [Hint Hev]]]]]]]].
+        rewrite Hsame in Hint, Hev.
+        exists h', m', es_h', es_m'. repeat (split; [assumption|]).
+        eapply Ev2_step with (Ch := fun g => dheap_next_matching C (cnext g) m h)
+          (G := fun g f h1 => dheap_loop C (cnext g) f min (fst (heap_update_matches C h1)) (snd (heap_update_matches C h1)));
+          [|exact Hev1|exact Hev].
+        intros g f. exact (dheap_loop_skip (cnext g) f min h m k0 m0 mr eq_refl Eb).
+  Qed.
+
+  (* removing the popped entry from the abstract heap *)
+  Lemma heap_remove_F2 l : forall (h : list hentry) es x h',
+    Forall2 EntOk h es -> heap_remove C l h = Some (x, h') ->
+    exists e es', EntOk x e /\ Forall2 EntOk h' es' /\ ceq (e :: es') es /\ length h = S (length h') /\ snd x = l.
+  Proof.
+    induction h as [|[k c] h IH]; intros es x h' F Hr; cbn in Hr; [discriminate|].
+    inversion F as [|? e0 ? es0 Hx F0]; subst.
+    destruct (c =? l) eqn:E.
+    - inversion Hr; subst. exists e0, es0. split; [exact Hx|]. split; [exact F0|]. split; [apply ceq_refl|]. split; [reflexivity|cbn; apply Z.eqb_eq; exact E].
+    - destruct (heap_remove C l h) as [[x0 h0]|] eqn:Er; [|discriminate]. inversion Hr; subst.
+      destruct (IH es0 x h0 F0 eq_refl) as [e [es' [Hxe [F' [Hc [Hl Hs]]]]]].
+      exists e, (e0 :: es'). split; [exact Hxe|]. split; [constructor; assumption|]. split; [|split; [cbn; lia|exact Hs]].
+      eapply ceq_trans; [apply ceq_sym; apply (ceq_middle e [e0] es')|]. cbn. apply ceq_cons. exact Hc.
+  Qed.
+
+  Lemma dheap_adv_loop_S ca f t h tmp :
+    dheap_adv_loop C ca (S f) t h tmp =
+    match heap_pop C h with
+    | None => Some (h, tmp)
+    | Some ((k, c), h') =>
+        if c <? t then
+          match ca k t with
+          | None => None
+          | Some (r, k') => dheap_adv_loop C ca f t h' (match r with Some c' => tmp ++ [(k', c')] | None => tmp end)
+          end
+        else Some (h, tmp)
+    end.
+  Proof. reflexivity. Qed.
+
+  Lemma Forall2_app' {A B} (P : A -> B -> Prop) a a' b b' : Forall2 P a a' -> Forall2 P b b' -> Forall2 P (a ++ b) (a' ++ b').
+  Proof. induction 1; cbn; auto. Qed.
+
+  Lemma Forall2_rev' {A B} (P : A -> B -> Prop) a a' : Forall2 P a a' -> Forall2 P (rev a) (rev a').
+  Proof. induction 1; cbn; [constructor|]. apply Forall2_app'; [assumption|constructor; [assumption|constructor]]. Qed.
+
+  Lemma dheap_adv_loop_ok t : forall n h es tmp es_t,
+    (length h <= n)%nat -> Forall2 EntOk h es -> Forall2 EntOk tmp es_t ->
+    exists h' tmp' es' es_t',
+      Forall2 EntOk h' es' /\ Forall2 EntOk tmp' es_t' /\
+      ceq (es' ++ es_t') (map (dropwhile_lt t) es ++ es_t) /\
+      Ev2 (fun g f => dheap_adv_loop C (cadv g) f t h tmp) (h', tmp').
+  Proof.
+    induction n as [|n IH]; intros h es tmp es_t Hn Fh Ft.
+    - destruct h; [|cbn in Hn; lia]. inversion Fh; subst.
+      exists [], tmp, [], es_t. split; [constructor|]. split; [exact Ft|]. split; [apply ceq_refl|].
+      eapply Ev2_step0; [|apply Ev2_const]. intros g f. reflexivity.
+    - unfold heap_pop in *. destruct (heap_least C h) as [l|] eqn:El.
+      + pose proof (heap_least_in h l El) as Hex. pose proof (heap_least_le h l El) as Hle.
+        destruct (heap_remove_spec l h Hex) as [[k c] [h1 [Hr _]]].
+        destruct (heap_remove_F2 l h es (k, c) h1 Fh Hr) as [e [es1 [Hxe [F1 [Hc [Hl Hs]]]]]]. cbn in Hs. subst c.
+        destruct (l <? t) eqn:E.
+        * apply Z.ltb_lt in E. destruct Hxe as [pk [Hk [A ->]]]. cbn in Hk, A.
+          destruct (Hadv _ _ t Hk) as [k' [Hk' Hevk]]. unfold spec_advance in *.
+          pose proof (dropwhile_lt_ascending t pk (asc_from_ascending _ _ A)) as Adw.
+          set (tmp1 := match fst (uncons (dropwhile_lt t pk)) with Some c' => tmp ++ [(k', c')] | None => tmp end).
+          assert (exists es_t1, Forall2 EntOk tmp1 es_t1 /\ ceq es_t1 (dropwhile_lt t pk :: es_t)) as [es_t1 [Ft1 Hct1]].
+          { unfold tmp1. destruct (dropwhile_lt t pk) as [|c' pk'] eqn:Ed; cbn [uncons fst snd] in *.
+            - exists es_t. split; [exact Ft|apply ceq_sym, ceq_nil_cons].
+            - exists (es_t ++ [c' :: pk']). split.
+              + apply Forall2_app'; [exact Ft|constructor; [exists pk'; auto|constructor]].
+              + eapply ceq_trans; [apply ceq_app_comm|]. apply ceq_refl. }
+          destruct (IH h1 es1 tmp1 es_t1 ltac:(lia) F1 Ft1) as [h' [tmp' [es' [es_t' [Fh' [Ft' [Hc' Hev']]]]]]].
+          exists h', tmp', es', es_t'. split; [exact Fh'|]. split; [exact Ft'|]. split.
+          -- eapply ceq_trans; [exact Hc'|].
+             pose proof (Forall2_EntOk_asc _ _ F1) as A1. pose proof (Forall2_EntOk_asc _ _ Fh) as Ah.
+             assert (ceq (map (dropwhile_lt t) ((l :: pk) :: es1)) (map (dropwhile_lt t) es)) as Hm.
+             { apply ceq_map_dw; [constructor; [exact A|exact A1]|exact Ah|exact Hc]. }
+             eapply ceq_trans; [|apply ceq_app; [exact Hm|apply ceq_refl]].
+             cbn [map]. assert (dropwhile_lt t (l :: pk) = dropwhile_lt t pk) as -> by (cbn; rewrite (proj2 (Z.ltb_lt l t) E); reflexivity).
+             eapply ceq_trans; [apply ceq_app; [apply ceq_refl|exact Hct1]|].
+             eapply ceq_trans; [apply ceq_middle|]. apply ceq_refl.
+          -- eapply Ev2_step with (Ch := fun g => cadv g k t)
+               (G := fun g f x => let '(r, k') := x in
+                       dheap_adv_loop C (cadv g) f t h1 (match r with Some c' => tmp ++ [(k', c')] | None => tmp end));
+               [|exact Hevk|exact Hev'].
+             intros g f. rewrite dheap_adv_loop_S. unfold heap_pop. rewrite El, Hr. rewrite (proj2 (Z.ltb_lt l t) E).
+             destruct (cadv g k t) as [[r k'']|]; reflexivity.
+        * (* the least entry is at or after the target *)
+          apply Z.ltb_ge in E. exists h, tmp, es, es_t. split; [exact Fh|]. split; [exact Ft|]. split.
+          -- rewrite (map_dw_noop t h es Fh). apply ceq_refl. eapply Forall_impl; [|exact Hle]. cbn. intros; lia.
+          -- eapply Ev2_step0; [|apply Ev2_const]. intros g f. rewrite dheap_adv_loop_S. unfold heap_pop. rewrite El, Hr.
+             rewrite (proj2 (Z.ltb_ge l t) E). reflexivity.
+      + apply heap_least_none in El. subst h. inversion Fh; subst.
+        exists [], tmp, [], es_t. split; [constructor|]. split; [exact Ft|]. split; [apply ceq_refl|].
+        eapply Ev2_step0; [|apply Ev2_const]. intros g f. reflexivity.
+  Qed.
+
+  (* ---------- the abstraction relation ---------- *)
+  Definition RDisjH (st : dheap_st C) (p : list Z) : Prop :=
+    exists es, p = at_least (dh_min st) es /\
+      if dh_init st then
+        exists es_h es_m, ceq es (es_h ++ es_m) /\ Forall2 EntOk (dh_heap st) es_h /\
+                          Forall2 EntOk (dh_match st) es_m /\ UM (dh_heap st) (dh_match st)
+      else Forall2 R (dh_searchers st) es.
+
+  Lemma RDisjH_asc : asc_ok _ RDisjH.
+  Proof. intros st p [es [-> _]]. apply at_least_ascending. Qed.
+
+  Lemma dheap_initialise_ok st p :
+    RDisjH st p ->
+    exists h m es_h es_m, p = at_least (dh_min st) (es_h ++ es_m) /\
+      Forall2 EntOk h es_h /\ Forall2 EntOk m es_m /\ UM h m /\
+      Ev (fun g => dheap_initialise C (cnext g) st) (h, m).
+  Proof.
+    intros [es [-> H]]. unfold dheap_initialise. destruct (dh_init st).
+    - destruct H as [es_h [es_m [Hc [Fh [Fm Hum]]]]].
+      exists (dh_heap st), (dh_match st), es_h, es_m. split; [apply at_least_ceq; exact Hc|]. repeat (split; [assumption|]). apply Ev_const.
+    - destruct (init_kids_ok _ es [] [] H (Forall2_nil _)) as [h1 [es1 [F1 [Hc1 Hev1]]]].
+      destruct (hum_ok h1 es1 F1) as [es_h [es_m [Fh [Fm [Hum Hc2]]]]].
+      exists (fst (heap_update_matches C h1)), (snd (heap_update_matches C h1)), es_h, es_m.
+      split; [apply at_least_ceq; apply ceq_sym; eapply ceq_trans; [exact Hc2|]; rewrite app_nil_r in Hc1; exact Hc1|].
+      repeat (split; [assumption|]).
+      destruct Hev1 as [N HN]. exists N. intros g Hg. rewrite (HN g Hg). destruct (heap_update_matches C h1); reflexivity.
+  Qed.
+
+  Theorem disj_heap_cursor :
+    cursor_ok (dheap_st C) (fun f => dheap_next C (cnext f) f)
+              (fun f => dheap_adv C (cnext f) (cadv f) f) RDisjH.
+  Proof.
+    split; [exact RDisjH_asc|]. split.
+    - intros st p H. destruct (dheap_initialise_ok st p H) as [h [m [es_h [es_m [-> [Fh [Fm [Hum Hev0]]]]]]]].
+      destruct (dheap_loop_ok (dh_min st) _ h m es_h es_m (le_n _) Fh Fm Hum)
+        as [h' [m' [es_h' [es_m' [Fh' [Fm' [Hum' [Hint Hev]]]]]]]].
+      exists {| dh_searchers := dh_searchers st; dh_min := dh_min st; dh_heap := h'; dh_match := m'; dh_init := true |}.
+      unfold spec_next. rewrite uncons_hd_tl. cbn [fst snd]. split.
+      + exists (es_h' ++ es_m'). cbn. split; [symmetry; exact Hint|]. exists es_h', es_m'. repeat (split; [try apply ceq_refl; assumption|]). exact Hum'.
+      + apply Ev2_diag with (F := fun g f => dheap_next C (cnext g) f st). unfold dheap_next.
+        eapply Ev2_bind with (F := fun g => dheap_initialise C (cnext g) st)
+          (G := fun g f hm => let '(h, m) := hm in
+                  match dheap_loop C (cnext g) f (dh_min st) h m with
+                  | Some (r, h', m') => Some (r, {| dh_searchers := dh_searchers st; dh_min := dh_min st; dh_heap := h'; dh_match := m'; dh_init := true |})
+                  | None => None end); [exact Hev0|].
+        apply (Ev2_map _ (fun x => let '(r, h', m') := x in (r, {| dh_searchers := dh_searchers st; dh_min := dh_min st; dh_heap := h'; dh_match := m'; dh_init := true |}))) in Hev.
+        eapply Ev2_ext; [|exact Hev]. intros g f. cbn.
+        destruct (dheap_loop C (cnext g) f (dh_min st) h m) as [[[r k'] m'']|]; reflexivity.
+    - intros st p t H. destruct (dheap_initialise_ok st p H) as [h [m [es_h [es_m [-> [Fh [Fm [Hum Hev0]]]]]]]].
+      pose proof (Forall2_EntOk_asc _ _ Fh) as Ah. pose proof (Forall2_EntOk_asc _ _ Fm) as Am.
+      assert (Forall2 EntOk (rev m ++ h) (rev es_m ++ es_h)) as F0 by (apply Forall2_app'; [apply Forall2_rev'; exact Fm|exact Fh]).
+      destruct (dheap_adv_loop_ok t (length (rev m ++ h)) (rev m ++ h) _ [] [] (le_n _) F0 (Forall2_nil _))
+        as [h1 [tmp [es1 [es_t [F1 [Ft [Hc1 Hev1]]]]]]].
+      assert (Forall2 EntOk (rev tmp ++ h1) (rev es_t ++ es1)) as F2 by (apply Forall2_app'; [apply Forall2_rev'; exact Ft|exact F1]).
+      destruct (hum_ok _ _ F2) as [es_h2 [es_m2 [Fh2 [Fm2 [Hum2 Hc2]]]]].
+      set (h2 := fst (heap_update_matches C (rev tmp ++ h1))) in *. set (m2 := snd (heap_update_matches C (rev tmp ++ h1))) in *.
+      assert (ceq (es_h2 ++ es_m2) (map (dropwhile_lt t) (es_h ++ es_m))) as Hceq.
+      { eapply ceq_trans; [exact Hc2|]. eapply ceq_trans; [apply ceq_app; [apply ceq_rev|apply ceq_refl]|].
+        eapply ceq_trans; [apply ceq_app_comm|]. eapply ceq_trans; [exact Hc1|]. rewrite app_nil_r.
+        apply ceq_map_dw.
+        - apply Forall_app. split; [apply Forall_rev; exact Am|exact Ah].
+        - apply Forall_app. split; assumption.
+        - eapply ceq_trans; [apply ceq_app; [apply ceq_rev|apply ceq_refl]|]. apply ceq_app_comm. }
+      assert (at_least (dh_min st) (es_h2 ++ es_m2) = dropwhile_lt t (at_least (dh_min st) (es_h ++ es_m))) as Hdw.
+      { rewrite (at_least_ceq _ _ _ Hceq). apply at_least_map_dw. apply Forall_app. split; assumption. }
+      destruct (dheap_loop_ok (dh_min st) _ h2 m2 es_h2 es_m2 (le_n _) Fh2 Fm2 Hum2)
+        as [h' [m' [es_h' [es_m' [Fh' [Fm' [Hum' [Hint Hev]]]]]]]].
+      rewrite Hdw in Hint, Hev.
+      exists {| dh_searchers := dh_searchers st; dh_min := dh_min st; dh_heap := h'; dh_match := m'; dh_init := true |}.
+      unfold spec_advance. rewrite uncons_hd_tl. cbn [fst snd]. split.
+      + exists (es_h' ++ es_m'). cbn. split; [symmetry; exact Hint|]. exists es_h', es_m'. repeat (split; [try apply ceq_refl; assumption|]). exact Hum'.
+      + apply Ev2_diag with (F := fun g f => dheap_adv C (cnext g) (cadv g) f st t). unfold dheap_adv.
+        eapply Ev2_bind with (F := fun g => dheap_initialise C (cnext g) st)
+          (G := fun g f hm => let '(h, m) := hm in
+                  match dheap_adv_loop C (cadv g) f t (rev m ++ h) [] with
+                  | None => None
+                  | Some (h1, tmp) =>
+                      let '(h2, m2) := heap_update_matches C (rev tmp ++ h1) in
+                      match dheap_loop C (cnext g) f (dh_min st) h2 m2 with
+                      | Some (r, h', m') => Some (r, {| dh_searchers := dh_searchers st; dh_min := dh_min st; dh_heap := h'; dh_match := m'; dh_init := true |})
+                      | None => None end end); [exact Hev0|].
+        cbn beta iota.
+        eapply Ev2_ext; [|eapply Ev2_bind2 with (F := fun g f => dheap_adv_loop C (cadv g) f t (rev m ++ h) [])
+          (G := fun g f x => let '(h1, tmp) := x in
+                  match dheap_loop C (cnext g) f (dh_min st) (fst (heap_update_matches C (rev tmp ++ h1))) (snd (heap_update_matches C (rev tmp ++ h1))) with
+                  | Some (r, h', m') => Some (r, {| dh_searchers := dh_searchers st; dh_min := dh_min st; dh_heap := h'; dh_match := m'; dh_init := true |})
+                  | None => None end); [exact Hev1|]].
+        * intros g f. cbn. destruct (dheap_adv_loop C (cadv g) f t (rev m ++ h) []) as [[h1' tmp']|]; [|reflexivity].
+          destruct (heap_update_matches C (rev tmp' ++ h1')); reflexivity.
+        * cbn beta iota. fold h2 m2.
+          apply (Ev2_map _ (fun x => let '(r, h', m') := x in (r, {| dh_searchers := dh_searchers st; dh_min := dh_min st; dh_heap := h'; dh_match := m'; dh_init := true |}))) in Hev.
+          eapply Ev2_ext; [|exact Hev]. intros g f. cbn.
+          destruct (dheap_loop C (cnext g) f (dh_min st) h2 m2) as [[[r k'] m'']|]; reflexivity.
+  Qed.
 End Heap.
